@@ -1695,8 +1695,11 @@ size_t rtosc_scan_arg_val(const char* src,
             {
                 last_bufsize = *bufsize;
 
+                // "args before" counts argument values, not tokens
+                // (a range takes up to three of them)
                 src += rtosc_scan_arg_val(src, arg, nargs,
-                                          buffer_for_strings, bufsize, i, 1);
+                                          buffer_for_strings, bufsize,
+                                          num_read, 1);
                 arrtype = arg->type;
                 if(arrtype == '-')
                     arrtype = rtosc_av_rep_has_delta(arg) ? arg[2].type : arg[1].type;
